@@ -29,7 +29,12 @@
    two real followers (in-process streams).  The leader's own log and the state it exposes afterwards are
    recorded; TLC (DbLogTrace.tla) folds Apply over the log and must arrive at the exposed state; the same log
    replayed in order by a fresh leader must give the same dump.
-4. code -> spec: random request streams (bigger key space, more operations per request) through the real leader,
+4. crash points (shared with C07): the same sequences on a kv.DB created through a kv.Factory whose write batches
+   report every successful commit; at every commit the engine is flushed + checkpointed (the disk of a node that
+   dies at that instant), every image is opened by a fresh kv.DB and must be the reference database after the
+   entries 0..c (c = the commit offset stored in the image) and, after the entries c+1.. were applied to it, the
+   reference after the whole log (full dumps; the reference is compared step by step with TLC's expected state).
+5. code -> spec: random request streams (bigger key space, more operations per request) through the real leader,
    recorded and judged by TLC (DbTrace.tla with records, index keys, shadow keys, notification batches and the
    version counter in scope); the same route comparison at the end of every trace.
 """
@@ -63,6 +68,36 @@ def _routes(ctx, binp, path, label, chunk=0):
         else:
             ctx.violation("%s at step %d of %s" % (mm["what"][:500], mm["step"], _show(mm)), p)
     return res
+
+
+def crashpoints(ctx, binp, path, label, max_seq=0):
+    """Crash images at every storage-engine batch commit for the sequences of an exported behaviour file (callable
+    from other checks: the violation is reported under ctx.pid).  Returns the result dict of routecheck."""
+    out = os.path.join(ctx.scratch, "crash-%s.json" % label)
+    ctx.run([binp, "crashpoints", "-in", path, "-out", out, "-max", str(max_seq), "-workers", str(max(4, min(12, ctx.cores - 2)))])
+    res = json.load(open(out))
+    res["mismatches"] = res.get("mismatches") or []
+    ctx.replayed += res["sequences"]
+    ctx.log("crash points [%s]: %d sequences (%d calls), %d crash images (one per storage-engine batch commit, flushed + checkpointed, reopened): each is the "
+            "reference after the entries up to its stored commit offset and, after replay of the rest, the reference after the whole log: %d mismatch class(es)" %
+            (label, res["sequences"], res["steps"], res["routes"], len(res["mismatches"])))
+    for i, mm in enumerate(res["mismatches"]):
+        p = ctx.save_replay("crash-%s-%d.json" % (label, i), mm)
+        b = _db.show_beh([s for s in mm["behaviour"] if s["a"] != "Routes"])
+        ctx.violation("%s - log: [%s]" % (mm["what"][:700], b if len(b) < 1500 else b[:1500] + " ... (see the replay file)"), p)
+    return res
+
+
+def crashpoints_standalone(ctx, quick=True):
+    """Draw sequences with TLC (storage-scale and mixed alphabets) and check their crash points."""
+    binp = ctx.go_build("routecheck")
+    r = ctx.tlc("OxiaDbBlocks", "db-c06blk-runs.cfg", simulate="num=%d" % (8 if quick else 40), depth=16, workers=4, label="crash-blocks", heap="4g")
+    path = os.path.join(ctx.scratch, "crash-blocks.ndjson")
+    if _db.export(r, "RUN", path) == 0:
+        raise vf.Inconclusive("TLC exported no behaviours for db-c06blk-runs.cfg")
+    crashpoints(ctx, binp, path, "blocks")
+    path, n, _ = _db.tlc_export(ctx, "db-c06-runs.cfg", "RUN", "crash-mixed", simulate="num=%d" % (10 if quick else 60), depth=12, workers=4)
+    crashpoints(ctx, binp, path, "mixed")
 
 
 def _live(ctx, binp, path, label, groups):
@@ -142,6 +177,7 @@ def run(ctx):
             raise vf.Inconclusive("TLC exported no behaviours for %s" % cfg)
         _routes(ctx, binp, path, label, chunk)
         _live(ctx, binp, path, label, 4 if quick else 8)
+        crashpoints(ctx, binp, path, label, 30 if quick else 0)
         if i == 0:
             with open(path) as f:
                 beh = json.loads(f.readline())
@@ -152,6 +188,7 @@ def run(ctx):
     # sequences x every (cut, lag) the last level offers
     path, n, _ = _db.tlc_export(ctx, "db-c06-runs.cfg", "RUN", "runs", simulate="num=%d" % (26 if quick else 80), depth=12, workers=w)
     _routes(ctx, binp, path, "mixed", 0)
+    crashpoints(ctx, binp, path, "mixed", 40 if quick else 0)
     with open(path) as f:
         beh = json.loads(f.readline())
     ctx.samples.append({"kind": "sequence + routes chosen by TLC, executed on real leader / WAL replay / follower / snapshot", "requests": _db.show_beh(beh[:-1]),
@@ -199,6 +236,14 @@ def replay(ctx, path):
     path = os.path.abspath(path)
     mm = json.load(open(path))
     binp = ctx.go_build("routecheck")
+    if mm.get("kind") == "crash":
+        src = os.path.join(ctx.scratch, "crash.ndjson")
+        with open(src, "w") as f:
+            f.write(json.dumps(mm["behaviour"]) + "\n")
+        res = crashpoints(ctx, binp, src, "rerun")
+        if not res["mismatches"]:
+            ctx.log("every crash image of the sequence is consistent")
+        return
     if mm.get("mode") == "rf3":
         # the interleaving is the scheduler's: the logged requests are issued again by concurrent writers
         src = os.path.join(ctx.scratch, "rf3.ndjson")
